@@ -9,7 +9,7 @@
    evaluateNode on a nil root). *)
 From Coq Require Import List NArith ZArith Bool.
 From Verif Require Import model.CqlEval proofs.CqlEvalProofs.
-From Verif Require model.CqlSyntax model.CqlParser proofs.CqlBridgeProofs.
+From Verif Require lib.Quote model.CqlSyntax model.CqlParser proofs.CqlAcceptedProofs proofs.CqlBridgeProofs.
 Import ListNotations.
 
 (* -- totality ---------------------------------------------------------------------------------------- *)
@@ -41,6 +41,15 @@ Theorem c15_parsed_trees_wf : forall e s n m,
   CqlParser.parse_front e s = CqlParser.FTree n -> CqlBridgeProofs.conv n = Some m -> wf m.
 Proof. exact CqlBridgeProofs.parsed_tree_wf. Qed.
 Print Assumptions c15_parsed_trees_wf.
+
+(* ... and the conversion never fails on them: for every valid-UTF-8 text whose characters lower-case inside the
+   grammar's classes, in an environment with the ASCII lower-casing on ASCII (C14's env_ok / lowok), what the parser
+   hands to the validator converts to a well-formed tree of this model *)
+Theorem c15_parsed_trees_convert : forall e s n, CqlAcceptedProofs.env_ok e -> Quote.valid_codepoints s ->
+  Forall (CqlAcceptedProofs.lowok e) s -> CqlParser.parse_front e s = CqlParser.FTree n ->
+  exists m, CqlBridgeProofs.conv n = Some m /\ wf m.
+Proof. exact CqlBridgeProofs.parsed_tree_converts. Qed.
+Print Assumptions c15_parsed_trees_convert.
 
 (* the validator is not vacuous and the evaluator does panic outside of what it admits *)
 Example c15_panic_reachable :
